@@ -7,6 +7,7 @@ import Cte.Model.Decode
 import Cte.Model.Check
 import Cte.Model.Purge
 import Cte.Model.Energy
+import Cte.Model.Indicators
 import Cte.Model.RadTable
 import Cte.Model.Bvh
 import Cte.Model.BvhIter
@@ -91,9 +92,9 @@ def indicatorsWith (F : Fns) (req : J) (m : Model) : J :=
   let wc := m.winConsProps F
   let wins := m.winProps F fsh
   let g := m.globalProps F
-  let k := kData wp wins (lastById (·.id) m.thermalBridges)
-  let n := n50Data wp wins wc g.volEnvNet g.cO100 m.info.n50Test
-  let q := qSolJul wins wc rad g.aRef
+  let k := m.kOf F fsh
+  let n := m.n50Of F fsh
+  let q := m.qsolOf F fsh rad
   J.obj [
     ("walls", J.obj (wp.map (fun w => (w.id, J.obj [
       ("u", jnv w.u), ("is_tenv", J.bool w.isTenv), ("area_net", jr w.areaNet), ("area_gross", jr w.areaGross),
